@@ -1,23 +1,76 @@
 (* C15 — the iterators of package itertools enumerate exactly the advertised objects, once each,
    in the documented order, and then report exhaustion for ever.
-   This file contains only the property theorems (lead's share: Product, Combinations,
+   This file contains only the property theorems of the lead's share (Product, Combinations,
    CombinationsColex, RestrictedPrefixProduct), closed by [exact], and their assumptions.
-   The other iterators are in Props/C15_part2.v. *)
+   The other iterators are in Props/C15_part2.v.
+
+   Reading the statements: [drain next value fuel init = Some (l, e)] says that calling Next
+   repeatedly from the freshly constructed iterator, copying Value after every call that
+   returns true, never panics (no index out of range, no exhausted fuel of an inner goto loop),
+   produces the list l and stops at the first false in state e, using exactly |l| + 1 calls;
+   [exhausted next e] says that every further call from e returns false.  [StronglySorted lt l]
+   is "in the documented order" (and, the order being strict, "each once" — also stated as
+   [NoDup l]); [In x l <-> F x] is "exactly the advertised family". *)
 From Coq Require Import List ZArith Arith Sorted.
-From Mamba Require Import Iter.Model Iter.Enum Iter.Lex Iter.Product.
+From Mamba Require Import Iter.Model Iter.Enum Iter.Lex Iter.Product Iter.ProductRP Iter.Comb Iter.Colex.
 Import ListNotations.
 Open Scope Z_scope.
 
-(* Product(ns...), for every list of factors (empty list, zero and negative factors included):
-   draining the iterator never panics or runs out of fuel; the values produced are strictly
-   increasing in lexicographic order (hence pairwise distinct), they are exactly the tuples x
-   with |x| = |ns| and 0 <= x[i] < ns[i]; and from the state reached every further call of
-   Next returns false. *)
+(* Product(ns...), for every list of factors (the empty list, zero and negative factors
+   included): the tuples x with |x| = |ns| and 0 <= x[i] < ns[i], in lexicographic order. *)
 Theorem C15_product : forall ns,
-  exists fuel l e, drain product_next product_value fuel (product_init ns) = Some (l, e) /\
-    StronglySorted lex_lt l /\ (forall x, In x l <-> in_product ns x) /\ exhausted product_next e.
-Proof. exact product_enumerates. Qed.
+  exists l e, drain product_next product_value (S (length l)) (product_init ns) = Some (l, e) /\
+    (StronglySorted lex_lt l /\ NoDup l /\ (forall x, In x l <-> in_product ns x) /\
+     exhausted product_next e).
+Proof. exact product_enumerates_exact. Qed.
 Print Assumptions C15_product.
+
+(* Combinations(n, k), for every integer n and every k >= 0 (k = 0, k = n, k > n, n <= 0
+   included): the strictly increasing arrays of k elements of {0..n-1}, in lexicographic order. *)
+Theorem C15_combinations : forall n k,
+  exists l e, drain comb_next comb_value (S (length l)) (comb_init n k) = Some (l, e) /\
+    (StronglySorted lex_lt l /\ NoDup l /\ (forall x, In x l <-> in_comb n k x) /\
+     exhausted comb_next e).
+Proof. exact comb_enumerates_exact. Qed.
+Print Assumptions C15_combinations.
+
+(* CombinationsColex(n, k), same domain: the same family in colexicographic order (arrays are
+   compared from their last, i.e. largest, element). *)
+Theorem C15_combinations_colex : forall n k,
+  exists l e, drain colex_next colex_value (S (length l)) (colex_init n k) = Some (l, e) /\
+    (StronglySorted colex_lt l /\ NoDup l /\ (forall x, In x l <-> in_comb n k x) /\
+     exhausted colex_next e).
+Proof. exact colex_enumerates_exact. Qed.
+Print Assumptions C15_combinations_colex.
+
+(* k > n >= 0: the very first call reports exhaustion. *)
+Theorem C15_combinations_colex_k_gt_n : forall n k, 0 <= n < Z.of_nat k ->
+  exists e, drain colex_next colex_value 1 (colex_init n k) = Some ([], e) /\ exhausted colex_next e.
+Proof. exact colex_k_gt_n. Qed.
+Print Assumptions C15_combinations_colex_k_gt_n.
+
+(* RestrictedPrefixProduct(t, ns...), for every predicate t (a function of the prefix) and every
+   list of factors: the tuples of the product all of whose non-empty prefixes are accepted, in
+   lexicographic order; the goto machine of one call of Next terminates within the fuel
+   3 * (number of nodes of the product tree) + 3 fixed by the model's constructor. *)
+Theorem C15_restricted_prefix_product : forall t ns,
+  exists l e, drain (rpprod_next t) rpprod_value (S (length l)) (rpprod_init ns) = Some (l, e) /\
+    (StronglySorted lex_lt l /\ NoDup l /\ (forall x, In x l <-> in_rpp t ns x) /\
+     exhausted (rpprod_next t) e).
+Proof. exact rpprod_enumerates_exact. Qed.
+Print Assumptions C15_restricted_prefix_product.
+
+(* ... and it agrees with filtering the unrestricted enumeration: the drained list is the
+   sublist of the drained list of Product(ns...) of the tuples passing all prefix tests. *)
+Theorem C15_restricted_prefix_product_is_filter : forall t ns,
+  exists l e lp ep,
+    drain (rpprod_next t) rpprod_value (S (length l)) (rpprod_init ns) = Some (l, e) /\
+    drain product_next product_value (S (length lp)) (product_init ns) = Some (lp, ep) /\
+    l = filter (allok t) lp /\ exhausted (rpprod_next t) e.
+Proof. exact rpprod_is_filter_exact. Qed.
+Print Assumptions C15_restricted_prefix_product_is_filter.
+
+(* ------------------------------------------------------------------ non-vacuity *)
 
 Example C15_product_nonvacuous :
   (exists e, drain product_next product_value 7 (product_init [2; 1; 3]) =
@@ -25,3 +78,26 @@ Example C15_product_nonvacuous :
   (exists e, drain product_next product_value 2 (product_init []) = Some ([[]], e)) /\
   (exists e, drain product_next product_value 1 (product_init [2; 0; 2]) = Some ([], e)).
 Proof. repeat split; eexists; vm_compute; reflexivity. Qed.
+
+Example C15_combinations_nonvacuous :
+  (exists e, drain comb_next comb_value 7 (comb_init 4 2) =
+     Some ([[0;1]; [0;2]; [0;3]; [1;2]; [1;3]; [2;3]], e)) /\
+  (exists e, drain comb_next comb_value 2 (comb_init 3 0) = Some ([[]], e)) /\
+  (exists e, drain comb_next comb_value 2 (comb_init 3 3) = Some ([[0;1;2]], e)) /\
+  (exists e, drain comb_next comb_value 1 (comb_init 2 3) = Some ([], e)).
+Proof. repeat split; eexists; vm_compute; reflexivity. Qed.
+
+Example C15_combinations_colex_nonvacuous :
+  (exists e, drain colex_next colex_value 11 (colex_init 5 3) =
+     Some ([[0;1;2]; [0;1;3]; [0;2;3]; [1;2;3]; [0;1;4]; [0;2;4]; [1;2;4]; [0;3;4]; [1;3;4]; [2;3;4]], e)) /\
+  (exists e, drain colex_next colex_value 2 (colex_init 0 0) = Some ([[]], e)) /\
+  (exists e, drain colex_next colex_value 1 (colex_init 2 3) = Some ([], e)).
+Proof. repeat split; eexists; vm_compute; reflexivity. Qed.
+
+(* the predicate "the last entry differs from the one before", which forces backtracking *)
+Example C15_restricted_prefix_product_nonvacuous :
+  let t := fun a : list Z => match rev a with x :: y :: _ => negb (x =? y) | _ => true end in
+  (exists e, drain (rpprod_next t) rpprod_value 7 (rpprod_init [2; 2; 3]) =
+     Some ([[0;1;0]; [0;1;2]; [1;0;1]; [1;0;2]], e)) /\
+  filter (allok t) [[0;0;0]; [0;1;0]; [0;1;1]; [1;0;2]] = [[0;1;0]; [1;0;2]].
+Proof. cbv zeta. split; [eexists|]; vm_compute; reflexivity. Qed.
